@@ -1,40 +1,52 @@
 #!/usr/bin/env python3
-"""Re-run our checks against kept seeded changes (applies seeded/<id>/patch.diff to /repo, runs ./check for the
-properties recorded in meta.json, undoes the patch) and refresh meta.json `our_checks`.
-usage: tools/refresh_seeded.py [id ...]   (default: all)"""
+"""Re-run our checks against kept seeded changes and refresh meta.json `our_checks`.
+usage: tools/refresh_seeded.py [--repo DIR] [id ...]   (default: all, against /repo)
+The patch is applied to the repository working tree (git apply), `./check <prop>` is run for the properties recorded in
+meta.json with HV_REPO pointing at that tree, and the patch is undone (git checkout -- .). With --repo a scratch worktree
+of /repo can be used so that several refreshes run side by side."""
 import json, os, subprocess, sys
 V = os.path.dirname(os.path.dirname(os.path.abspath(__file__)))
 
-def sh(cmd, cwd=None, timeout=3600):
-    p = subprocess.run(cmd, shell=True, cwd=cwd, capture_output=True, text=True, timeout=timeout)
+
+def sh(cmd, cwd=None, timeout=3600, env=None):
+    p = subprocess.run(cmd, shell=True, cwd=cwd, capture_output=True, text=True, timeout=timeout, env=env)
     return p.returncode, p.stdout + p.stderr
 
+
 def main():
-    ids = sys.argv[1:] or sorted(os.listdir(os.path.join(V, "seeded")))
-    rc, o = sh("git -C /repo status --porcelain")
+    args = sys.argv[1:]
+    repo = "/repo"
+    if args and args[0] == "--repo":
+        repo = args[1]
+        args = args[2:]
+    ids = args or sorted(os.listdir(os.path.join(V, "seeded")))
+    env = dict(os.environ, HV_REPO=repo)
+    rc, o = sh("git -C %s status --porcelain --untracked-files=no" % repo)
     if o.strip():
-        print("refusing: /repo has uncommitted changes"); return 2
+        print("refusing: %s has uncommitted changes" % repo)
+        return 2
     for sid in ids:
         d = os.path.join(V, "seeded", sid)
         meta = json.load(open(os.path.join(d, "meta.json")))
         props = list(meta.get("our_checks", {}).keys()) or [meta.get("property", sid.split("-")[0])]
-        rc, o = sh("git -C /repo apply %s" % os.path.join(d, "patch.diff"))
+        rc, o = sh("git -C %s apply %s" % (repo, os.path.join(d, "patch.diff")))
         if rc:
-            print(sid, "patch does not apply:", o[-200:]); continue
+            print(sid, "patch does not apply:", o[-200:])
+            continue
         checks = {}
         try:
             for p in props:
-                rc, o = sh("./check %s --tier quick" % p, cwd=V, timeout=3000)
+                rc, o = sh("./check %s --tier quick" % p, cwd=V, timeout=3000, env=env)
                 lines = [l for l in o.splitlines() if l.startswith(("VIOLATION", "KNOWN-FINDING", "CANNOT-DECIDE", p))]
                 checks[p] = {"exit": rc, "lines": lines[:8]}
         finally:
-            sh("git -C /repo checkout -- .")
+            sh("git -C %s checkout -- ." % repo)
         meta["our_checks"] = checks
-        meta["repo_head"] = sh("git -C /repo log --format=%h -1")[1].strip()
+        meta["repo_head"] = sh("git -C %s log --format=%%h -1" % repo)[1].strip()
         json.dump(meta, open(os.path.join(d, "meta.json"), "w"), indent=1)
-        print(sid, {p: c["exit"] for p, c in checks.items()})
-    # evidence files were rewritten by the runs on the modified tree: the caller re-runs the checks on the clean tree
+        print(sid, {p: c["exit"] for p, c in checks.items()}, flush=True)
     return 0
+
 
 if __name__ == "__main__":
     sys.exit(main())
